@@ -44,8 +44,8 @@ Proof. exact mpsc_quiescent_not_stranded. Qed.
 Print Assumptions C06_mpsc_quiescent_receiver_not_parked_next_to_a_value.
 
 (* tie: every state along an accepted trace of the real code is a reachable state of the model *)
-Theorem C06_mpsc_accepted_traces_are_model_runs : forall tr sx, accept_all m_init tr = Some sx -> Reach (fst sx).
-Proof. exact accepted_trace_reaches. Qed.
+Theorem C06_mpsc_accepted_traces_are_model_runs : forall tr l, accept_allm m_initm tr = Some l -> forall sx, In sx l -> Reach (fst sx).
+Proof. exact accepted_trace_reachesm. Qed.
 Print Assumptions C06_mpsc_accepted_traces_are_model_runs.
 
 Example C06_mpsc_nonvacuous :
